@@ -78,4 +78,23 @@ add("C26", "c_rpc",
     note="A send that is blocked when the engine closes is ended by the harness (the connection closes with the engine in mtproto.Conn); such calls are excluded from the classification oracle.",
     assumptions=["send returns when its context ends or the connection is closed"])
 
+
+POOL_RULE = "owned schedules over the real pool.DC in a synctest bubble with harness-controlled fake connections: pool max in {1,1,2,3,unlimited}, 1..5 callers; drawn actions start/cancel caller, make connection ready, kill connection, finish an invoke with ok / retryable dead-connection error (only on a dead connection) / non-retryable error, close DC, release a goroutine parked at a pool scheduling point (dead-entry, release-entry, acquire-created, acquire-wait, acquire-stuck, acquire-giveup; each enabled with p=1/3); the in-mutex point transfer-send cancels all waiting callers on a pre-drawn n-th hand-over and yields instead of parking. "
+add("C27", "c_pool",
+    [T("TestC27", 20000, 150000, env=BUBBLE)],
+    pre=["TestC27Regression"],
+    rule=POOL_RULE + "non-trivial = a connection dies while in use or while a caller waits, with >=2 callers; distinct by action list",
+    technique="stateful PBT with an owned schedule (rapid + synctest + build-tagged scheduling points); invariants after every step",
+    text="After every step: live fake connections <= max, no connection with two invokes in flight, no invoke started on a connection whose death the pool had observed at an earlier quiescent point. Schedules sampled at hook-point granularity.",
+    note="'observed death' = the connection's Run returned and, at a later quiescent point, no goroutine was parked before dead() for it; the window in which the pool cannot know yet is not counted. Go's random select choice among ready cases makes some failures non-reproducible from the fail file; the log is then the replay artefact.",
+    assumptions=["pool.ErrConnDead / rpc.ErrEngineClosed are returned only by connections that are dead or closing"])
+add("C28", "c_pool",
+    [T("TestC28", 20000, 150000, env=BUBBLE)],
+    pre=["TestC28Regression"],
+    rule=POOL_RULE + "non-trivial = a caller is cancelled while its connection is being created or during a hand-over; distinct by action list",
+    technique="stateful PBT with an owned schedule (rapid + synctest + scheduling points); behavioural capacity oracles, no internal state read",
+    text="At every quiescent point with nothing parked: no caller keeps waiting while a live ready connection is idle or a slot is free; at the end a capacity probe starts max fresh blocking invokes and all must be in flight at once.",
+    note="Same machine as C27; the probe runs with injected cancellations switched off.",
+    assumptions=["hook-point granularity"])
+
 NOT_CLAIMED = {}
